@@ -19,7 +19,7 @@ HASH_TOP = ["meson.build", "configure.ac", "pyproject.toml", ".bumpversion.cfg",
 VARIANTS = {
     "plain": dict(cc="gcc", cflags=["-O1", "-g", "-fno-omit-frame-pointer"], ld=[]),
     "asan": dict(cc="clang", cflags=["-O1", "-g", "-fno-omit-frame-pointer",
-                                     "-fsanitize=address,undefined", "-fno-sanitize=float-divide-by-zero",
+                                     "-fsanitize=address,undefined", "-fno-sanitize=float-divide-by-zero,nonnull-attribute",
                                      "-fsanitize-recover=all"],
                  ld=["-fsanitize=address,undefined"]),
     "tsan": dict(cc="clang", cflags=["-O1", "-g", "-fno-omit-frame-pointer", "-fsanitize=thread"],
